@@ -4,9 +4,12 @@
      ZERO ONE ONES, integers (all five carrier types), strings, Path, field names, EISAName, Uuid, BufferData, Arg, Local,
      ObjectType SizeOf Return DeRefOf BufferTerm VarPackageTerm, the six comparisons, Store Notify ToBuffer ToInteger,
      the 17 binary operators, CreateField Mid, Name Device Scope Scope::raw Method PowerResource OpRegion Mutex Acquire
-     Release MethodCall, Package PackageBuilder, If Else While
-   of any shape, depth and body size (all four PkgLength widths).  Not covered by it (hence "partial" in the manifest):
-   Field (field lists) and ResourceTemplate -- the latter is the subject of the C10 template theorem. *)
+     Release MethodCall, Field (name, flags byte, field list of named / reserved entries), Package PackageBuilder,
+     ResourceTemplate (a Buffer whose payload is its descriptors' bytes and the end tag), If Else While
+   of any shape, depth and body size (all four PkgLength widths).  Well-formedness (Proofs/AmlRoundTrip.v [wf]) asks of a
+   Field: access < 16, lock <= 1, update < 4, every named entry a NameSeg, every width < 2^28; of a ResourceTemplate: every
+   child a bare descriptor.  A bare descriptor is not an AML object, so it is not a term of its own here (only a child of a
+   ResourceTemplate); the descriptors' own layout is the subject of the C10 theorems. *)
 From Coq Require Import NArith List.
 From ACPI Require Import Lib.Bytes Lib.Sx Lib.Machine Impl.AmlCore Impl.AmlTerm Spec.AmlCoreS Spec.AmlTermS
   Proofs.AmlFrameP Proofs.AmlRoundTrip.
